@@ -34,6 +34,8 @@ def klass(r):
     if r["outcome"] == "raise":
         site = r.get("site", "?:?:?").split(":")
         line = re.sub(r"\s+", " ", site[2])[:40] if len(site) > 2 else ""
+        if r["exc"] == "RecursionError":      # where exactly the limit is hit is not part of what fails
+            return f"C16/raise:RecursionError@{site[0]}:{site[1]}"
         return f"C16/raise:{r['exc']}@{site[0]}:{site[1]}:{line}"
     return None
 
